@@ -1,7 +1,7 @@
 (* driver for the Percolator acceptor: reads event lines (docs/PERC_EVENTS.md) on stdin, several
    traces separated by "trace <id>"; prints per trace
      ACCEPT <id> <n events>     or    REJECT <id> <index> <event line> <reason>
-   followed by  STATE <id> <S> told=.. primary=<kst> keys=<k:kst,...> mode=classic|async|onepc|asyncresolved  for every transaction
+   followed by  STATE <id> <S> told=.. primary=<kst> keys=<k:kst,...> mode=classic|async|onepc|fallback|asyncresolved  for every transaction
    (state after the last accepted event). Fields are tab separated; the echoed event line has
    its tabs replaced by single spaces. *)
 let nh = n_of_hex
@@ -85,7 +85,7 @@ let reason_name r = match r with
   | R1_unprewritten -> "R1_unprewritten" | R1_ts_start -> "R1_ts_start" | R1_ts_mincommit -> "R1_ts_mincommit"
   | R1_ts_tso -> "R1_ts_tso" | R1_secondary_first -> "R1_secondary_first" | R1_key_not_mutation -> "R1_key_not_mutation"
   | R2_rollback_after_commit -> "R2_rollback_after_commit" | R2_commit_after_rollback -> "R2_commit_after_rollback"
-  | R3_resolve_unreported -> "R3_resolve_unreported" | R3_wrong_primary -> "R3_wrong_primary"
+  | R3_resolve_unreported -> "R3_resolve_unreported" | R3_wrong_primary -> "R3_wrong_primary" | R3_csl_unlisted -> "R3_csl_unlisted"
   | R4_expire_live_lock -> "R4_expire_live_lock"
   | R5_hb_primary -> "R5_hb_primary" | R5_hb_ttl_decrease -> "R5_hb_ttl_decrease" | R5_hb_ttl_age -> "R5_hb_ttl_age"
   | R5_hb_after_end -> "R5_hb_after_end"
@@ -95,12 +95,13 @@ let reason_name r = match r with
   | R7_ok_without_commit -> "R7_ok_without_commit" | R7_err_with_pending -> "R7_err_with_pending"
   | R7_undet_without_pending -> "R7_undet_without_pending" | R7_send_after_told -> "R7_send_after_told"
   | X_crashed -> "X_crashed" | N_no_send -> "N_no_send" | N_no_deliver -> "N_no_deliver"
-  | N_dup_commitpoint -> "N_dup_commitpoint" | N_dup_reply -> "N_dup_reply"
+  | N_dup_commitpoint -> "N_dup_commitpoint" | N_dup_reply -> "N_dup_reply" | N_dup_prewrite -> "N_dup_prewrite"
   | T_tso_order -> "T_tso_order" | T_begin_unissued -> "T_begin_unissued"
   | S_prewrite_after_rollback -> "S_prewrite_after_rollback" | S_commit_impossible -> "S_commit_impossible"
   | S_rollback_committed -> "S_rollback_committed" | S_cts_committed -> "S_cts_committed"
   | S_cts_rolledback -> "S_cts_rolledback" | S_cts_locked -> "S_cts_locked" | S_cts_secondary -> "S_cts_secondary"
   | S_csl_locks -> "S_csl_locks" | S_onepc -> "S_onepc" | S_gone -> "S_gone"
+  | S_cts_async -> "S_cts_async" | S_cts_secs -> "S_cts_secs" | S_csl_commit -> "S_csl_commit"
 
 let kst_str (s : sys) (t : n) (k : n) : string =
   match kget s t k with
@@ -119,7 +120,8 @@ let dump_state (id : string) (s : sys) : unit =
     let ks = if keys = [] then "-" else String.concat "," (List.map (fun k -> hex_of_n k ^ ":" ^ kst_str s t k) keys) in
     let nz f = c.cn f <> N0 in
     let asyncres = List.exists (fun ((t', _), j) -> t' = t && j = JAsync) s.s_rs in
-    let mode = if nz FTried1 then "onepc" else if nz FTriedA then "async" else if asyncres then "asyncresolved" else "classic" in
+    let fellback = nz FStFb || (nz FTried1 && nz FFb1) || (nz FTriedA && not (nz FTried1) && nz FFb) in
+    let mode = if fellback then "fallback" else if nz FTried1 then "onepc" else if nz FTriedA then "async" else if asyncres then "asyncresolved" else "classic" in
     Printf.printf "STATE\t%s\t%s\ttold=%s\tprimary=%s\tkeys=%s\tmode=%s\n" id (hex_of_n t) told prim ks mode) txns
 
 let () =
